@@ -28,7 +28,7 @@ for name, f in recipes:
         print("SKIP", name, e)
         continue
     rep = bool(r.get("reproduced"))
-    unran = [c for c in r.get("cases", []) if c.get("observed") is None] if isinstance(r.get("cases"), list) else []
+    unran = [c for c in r.get("cases", []) if isinstance(c, dict) and c.get("observed") is None] if isinstance(r.get("cases"), list) else []
     note = r.get("note")
     status = "CLEAN" if not rep and not unran and not note else "NOT-CLEAN"
     if name in KNOWN:
